@@ -94,10 +94,18 @@ Theorem C17_dimscheck_rejects_exclude_range : forall N M e x,
 Proof. exact dimscheck_rejects_exclude_range. Qed.
 Print Assumptions C17_dimscheck_rejects_exclude_range.
 
-Theorem C17_dimscheck_rejects_count : forall N m d, (forall x, In x d -> 0 <= x) ->
+Theorem C17_dimscheck_rejects_count : forall N m d, (forall x, In x d -> 0 <= x < N) -> NoDup d ->
   (m > N \/ (m <> N /\ m <> zlen d)) -> tt_dimscheck N (Some m) (Some d) None = Err.
 Proof. exact dimscheck_rejects_count. Qed.
 Print Assumptions C17_dimscheck_rejects_count.
+
+Theorem C17_dimscheck_rejects_out_of_range : forall N M d x, In x d -> N <= x -> tt_dimscheck N M (Some d) None = Err.
+Proof. exact dimscheck_rejects_out_of_range. Qed.
+Print Assumptions C17_dimscheck_rejects_out_of_range.
+
+Theorem C17_dimscheck_rejects_repeated : forall N M d, ~ NoDup d -> tt_dimscheck N M (Some d) None = Err.
+Proof. exact dimscheck_rejects_repeated. Qed.
+Print Assumptions C17_dimscheck_rejects_repeated.
 
 (* row membership: location of every search row in the source (last occurrence when repeated), -1 if absent *)
 Theorem C17_ismember : forall search source : mat,
